@@ -15,20 +15,20 @@ RULE = ("byte strings up to 512 bytes: (1) exhaustive: every buffer of length <=
         "Non-trivial = the validator accepted the buffer or the buffer is a mutation of a valid message; distinct by case text.")
 TRUSTED = ["AddressSanitizer (a read outside the n bytes aborts the harness: CRASH), the 5 s alarm watchdog (HANG)",
            "tools/props/osc_common.py decode(): the independent OSC 1.0 decoder"]
-ASSUMPTIONS = ["n < 2^31", "for buffers with a tag outside the 17 known ones or a non-NUL padding byte (which OSC 1.0 gives no "
-               "meaning) only memory safety is demanded, not agreement with the reference decoder"]
+ASSUMPTIONS = ["n < 2^31", "in the tie, for buffers with a tag outside the 17 known ones or a non-NUL padding byte (which OSC 1.0 gives no "
+               "meaning) only memory safety is demanded of the implementation, not agreement with the Python decoder"]
 TECHNIQUE = ("Coq proofs about a model of the length/validity functions with the code's 32-bit unsigned arithmetic and "
              "option-returning readers + differential correspondence on exhaustive short buffers and structure-aware "
              "mutations under ASan with a watchdog")
 LEVEL_TEXT = ("Theorems in coq/Properties_C07.v for an ARBITRARY byte list: rtosc_message_length / the two-segment ring "
               "length / rtosc_valid_message_p never read outside the n bytes, terminate within their fuel and report 0 or a "
               "length <= n (n < 2^32-16); whenever the validity predicate accepts a buffer (n < 2^27) every accessor - "
-              "argument string, count, type/argument by index, iterator - reads only inside it and the string/blob payloads "
-              "they designate lie inside it (C07_valid_safe, by an inversion of the accepted length walk). PARTIAL only in the "
-              "last clause: 'equals an independent decoder' is proved for canonical encodings (inverse of the OSC 1.0 encoder) "
-              "and for the mutual agreement of iterator / by-index / count on every accepted buffer; on accepted non-canonical "
-              "buffers the independent Python decoder evaluated in the correspondence run is the oracle. Witnesses of the "
-              "repaired defects are kept as _refuted theorems about the pinned functions.")
+              "argument string, count, type/argument by index, iterator - reads only inside it, the string/blob payloads "
+              "they designate lie inside it (C07_valid_safe, by an inversion of the accepted length walk), and the accessors "
+              "return exactly what a reference decoder written from the OSC 1.0 text returns (C07_valid_decodes); every "
+              "canonical message is accepted (C07_valid_accepts_canonical). All full. Witnesses of the repaired defects are "
+              "kept as _refuted theorems about the pinned functions. The correspondence run (exhaustive short buffers, "
+              "structure-aware mutations, ASan + watchdog, independent Python decoder) ties the model to the code.")
 LEVEL_NOTE = ("Trusted: Coq kernel, extraction, driver, harness, ASan, generator, Python decoder. The C code is modelled by hand "
               "(coq/Osc/OscModel.v) with explicit mod-2^32 arithmetic.")
 
